@@ -207,13 +207,15 @@ def truthy(v, st):
     return z3.BoolVal(True)
   if isinstance(v, VRef):
     k = v.ty.kind
+    hv = heap_of(v, st)
     if k == 'set':
-      return set_nonempty(v.t, st)
+      x = z3.Const(fresh_name('e'), U)
+      return ExistsT([x], hv.mem(v.t, x))
     if k in ('list', 'vtuple'):
-      return st.heap.len(v.t) > 0
+      return hv.len(v.t) > 0
     if k == 'dict':
       x = z3.Const(fresh_name('k'), U)
-      return ExistsT([x], st.heap.dom(v.t, x))
+      return ExistsT([x], hv.dom(v.t, x))
     if k in ('obj', 'callable'):
       return z3.BoolVal(True)
     if k == 'opt':
@@ -239,7 +241,7 @@ def as_setpred(v, st):
     return lambda e: z3.Or([e == u for u in us]) if us else z3.BoolVal(False)
   if isinstance(v, VRef):
     k = v.ty.kind
-    heap = st.heap
+    heap = heap_of(v, st)
     if k == 'set' or k == 'any' or k == 'opt':
       return lambda e: heap.mem(v.t, e)
     if k == 'dict':
@@ -299,10 +301,10 @@ def values_equal(a, b, st, world=None):
       raise Unsupported('== on class %s with custom __eq__ must go through its contract' % cls)
     if ka in ('list', 'vtuple') and kb in ('list', 'vtuple'):
       i = z3.Const(fresh_name('i'), I)
-      h = st.heap
-      return z3.And(h.len(a.t) == h.len(b.t),
-                    ForAllT([i], z3.Implies(z3.And(i >= 0, i < h.len(a.t)),
-                                              h.item(a.t, i) == h.item(b.t, i))))
+      ha, hb = heap_of(a, st), heap_of(b, st)
+      return z3.And(ha.len(a.t) == hb.len(b.t),
+                    ForAllT([i], z3.Implies(z3.And(i >= 0, i < ha.len(a.t)),
+                                              ha.item(a.t, i) == hb.item(b.t, i))))
     if _opt_scalar(a.ty) and _opt_scalar(b.ty):
       # Opt[str] / Opt[int] / Opt[bool]: scalars are embedded injectively in U, None is a constant
       return a.t == b.t
